@@ -395,18 +395,21 @@ OpStep(e) ==
              \cup (IF ~chkLive THEN {<<"liveness of tables", SafetyProps>>} ELSE {})
              \* (the count-terminated iterators are exact iff items = #FULL and FULL <=> slot initialised: such a state violates C09 as it stands)
              \cup {<<"structural invariant violated on the observed state: " \o m,
-                     SafetyProps \cup opp \cup {"C08"} \cup (IF m \in IterInv THEN {"C09"} ELSE {})>> : m \in invStruct}
+                     SafetyProps \cup opp \cup {"C08"} \cup (IF m \in IterInv THEN {"C09"} ELSE {})
+                       \* (C17: the usable capacity stays below the bucket count "so that one slot always stays empty")
+                       \cup (IF m \in {"I4 an EMPTY bucket exists", "I5 growth_left accounting"} THEN {"C17"} ELSE {})>> : m \in invStruct}
              \cup {<<"findability invariant violated on the observed state: " \o m, opp \cup KindProp(hd.kind)>> : m \in invFind}
              \cup (IF ~chkRet THEN {<<"result differs from the abstract specification", opp>>} ELSE {})
              \cup (IF ~chkAbs THEN {<<"contents differ from the abstract specification", opp>>} ELSE {})
              \cup (IF t \in lk.dv /\ e.op \in {"iter", "into_iter", "drain"}
                    THEN {<<"iterates a table whose contents had diverged from the reference model at an earlier operation (the elements it yields are not the stored ones)", {"C09"}>>} ELSE {})
              \cup (IF ~chkDrops THEN {<<"dropped elements differ from the abstract specification",
-                                        {"C03", "C04"} \cup (IF e.op \in ParOps THEN {"C19"} ELSE {}) \cup (IF e.op \in {"serde_de", "serde_de_in_place"} THEN {"C20"} ELSE {})>>} ELSE {})
+                                        {"C03", "C04"} \cup (IF e.op \in ParOps THEN {"C19"} ELSE {}) \cup (IF e.op \in {"serde_de", "serde_de_in_place"} THEN {"C20"} ELSE {})
+                                                        \cup (IF e.op \in {"clone", "clone_from"} THEN {"C11"} ELSE {})>>} ELSE {})
              \cup (IF ~chkFresh THEN {<<"an object created during the call is neither stored nor dropped (leak)", {"C03", "C04"} \cup opp>>} ELSE {})
              \cup (IF ~chkLen THEN {<<"len()/capacity() contract", {"C08"} \cup opp>>} ELSE {})
              \cup (IF ~chkAlloc THEN {<<"allocator ledger / allocation_size (size or alignment of a live block differs from the table layout)",
-                                       {"C02", "C03", "C08", "C13"} \cup (IF e.op = "drain" THEN {"C10"} ELSE {})>>} ELSE {})
+                                       {"C02", "C03", "C08", "C13", "C17"} \cup (IF e.op = "drain" THEN {"C10"} ELSE {})>>} ELSE {})
              \cup (IF ~chkChurn THEN {<<"allocation grew beyond 16x the space needed for the live-size bound under insert/remove churn", {"C13"}>>} ELSE {})
              \cup (IF ~chkNoAlloc THEN {<<"allocation although len < capacity", {"C08"}>>} ELSE {})
              \cup (IF ~chkReserve THEN {<<"capacity contract of " \o e.op, {"C08"} \cup (IF e.op = "try_reserve" THEN {"C12"} ELSE {})
